@@ -541,7 +541,10 @@ func C16(tier string) int {
 		}
 	}
 	nHist := 0
-	runHist := func(seq []c16case) {
+	var hmu sync.Mutex
+	var queue [][]c16case
+	runHist := func(seq []c16case) { queue = append(queue, seq) }
+	doHist := func(seq []c16case) {
 		a := (&Scenario{Kind: ap.Both, Tweak: func(a *ap.App) {
 			for _, c := range seq {
 				if c.tweak != nil {
@@ -566,7 +569,9 @@ func C16(tier string) int {
 			out := sc.On(a, nil)
 			if out.Panic != nil || statusOf(out) != "[201]" {
 				if out.Panic == nil {
+					hmu.Lock()
 					res.Violate("history|status", fmt.Sprintf("%s: request %d answered %s (err=%v), alone it is answered 201", sc.Name, step+1, statusOf(out), out.Err), M{"check": "C16", "part": "history", "requests": names})
+					hmu.Unlock()
 				}
 				return
 			}
@@ -574,11 +579,15 @@ func C16(tier string) int {
 				if strings.Contains(d, "/id/r") || strings.HasPrefix(d, "outbox ") {
 					continue
 				}
+				hmu.Lock()
 				res.Violate("history|state|"+diffClass(d)+"|after-"+seq[max(step-1, 0)].family, fmt.Sprintf("%s: after request %d: %s", sc.Name, step+1, d), M{"check": "C16", "part": "history", "requests": names})
+				hmu.Unlock()
 				return
 			}
 		}
+		hmu.Lock()
 		nHist++
+		hmu.Unlock()
 	}
 	for _, c1 := range hist {
 		for _, c2 := range hist {
@@ -586,9 +595,16 @@ func C16(tier string) int {
 		}
 	}
 	if res.Thorough() {
-		for i, c1 := range hist {
-			for j, c2 := range hist {
-				for k, c3 := range hist {
+		// triples over the single-target requests only (the full alphabet has several hundred entries)
+		var small []c16case
+		for _, c := range hist {
+			if len(asList(c.body["target"])) <= 1 {
+				small = append(small, c)
+			}
+		}
+		for i, c1 := range small {
+			for j, c2 := range small {
+				for k, c3 := range small {
 					if (i+j+k)%3 == 0 {
 						runHist([]c16case{c1, c2, c3})
 					}
@@ -614,6 +630,16 @@ func C16(tier string) int {
 			}
 		}
 	}
+	chunkH := 500
+	parallel((len(queue)+chunkH-1)/chunkH, func(ci int) {
+		lo, hi := ci*chunkH, (ci+1)*chunkH
+		if hi > len(queue) {
+			hi = len(queue)
+		}
+		for _, seq := range queue[lo:hi] {
+			doHist(seq)
+		}
+	})
 	res.Evaluations += nHist
 	res.Extra["request_histories"] = nHist
 	for _, i := range []int{1, len(cases) / 3, len(cases) / 2, len(cases) - 10} {
